@@ -53,15 +53,19 @@ def run(ch, prog, maxbuf):
             size, form = KINDS[ki]
             data, raw = make(i, size, form)
             before = (len(s._write_buffer), len(sock.sent), len(s._write_futures), s._total_write_index)
+            # the statement: a write that would exceed max_write_buffer_size is refused (sizes are in bytes)
+            should_refuse = maxbuf is not None and size > 0 and before[0] + size > maxbuf
             try:
                 f = s.write(data)
             except StreamBufferFullError:
                 after = (len(s._write_buffer), len(sock.sent), len(s._write_futures), s._total_write_index)
-                refused.append((i, before == after, len(before and s._write_buffer) + size > (maxbuf or 1 << 60)))
+                refused.append((i, before == after, should_refuse))
                 continue
             except Exception as e:
                 events.append(("raise", i, type(e).__name__))
                 continue
+            if should_refuse:
+                events.append(("oversize-accepted", i, "%d buffered + %d written > %d" % (before[0], size, maxbuf)))
             expected += raw
             writes.append((i, len(expected)))
             f.add_done_callback(lambda fut, i=i: events.append(
@@ -114,6 +118,8 @@ def judge(o):
     for e in o["events"]:
         if e[0] == "raise":
             bad.append(("write-raised-" + e[2], "write %d raised %s" % (e[1], e[2])))
+        if e[0] == "oversize-accepted":
+            bad.append(("oversize-write-accepted", "write %d accepted although %s" % (e[1], e[2])))
     if [e[1] for e in done] != [wi for wi, _ in o["writes"]]:
         bad.append(("resolution-order", "futures resolved in order %r, writes accepted %r"
                     % ([e[1] for e in done], [wi for wi, _ in o["writes"]])))
@@ -127,6 +133,8 @@ def judge(o):
     for i, untouched, should in o["refused"]:
         if not untouched:
             bad.append(("refused-with-side-effects", "refused write %d changed the stream state" % i))
+        if not should:
+            bad.append(("write-refused-below-limit", "write %d refused although it fits max_write_buffer_size" % i))
     if o["pending"] or o["left"]:
         bad.append(("not-flushed", "pending futures %r, buffered %r after the socket drained" % (o["pending"], o["left"])))
     return bad
